@@ -828,6 +828,24 @@ def memo_idiom(q, node):
         return None
     body = [b for b in node.body if not (isinstance(b, ast.Expr) and isinstance(b.value, ast.Constant))]
     D = K = E = None
+    # leading  name = <expression over the parameters>  statements (typically  key = (a, b) ) are substituted
+    params0 = {a.arg for a in node.args.args + node.args.kwonlyargs}
+    subst = {}
+    while body and isinstance(body[0], ast.Assign) and len(body[0].targets) == 1 and isinstance(body[0].targets[0], ast.Name) \
+            and _names(body[0].value) <= params0 and body[0].targets[0].id not in params0:
+        subst[body[0].targets[0].id] = body[0].value
+        body = body[1:]
+    if subst:
+        import copy
+
+        class _Sub(ast.NodeTransformer):
+            def visit_Name(self, n):
+                if isinstance(n.ctx, ast.Load) and n.id in subst:
+                    return copy.deepcopy(subst[n.id])
+                return n
+        body = [_Sub().visit(copy.deepcopy(b)) for b in body]
+        if any(isinstance(n, ast.Name) and isinstance(n.ctx, ast.Store) and n.id in subst for b in body for n in ast.walk(b)):
+            return None
 
     def sub(e):
         if isinstance(e, ast.Subscript) and isinstance(e.value, ast.Name):
